@@ -14,9 +14,40 @@ CHECKS = {
                 "harness. Names/time/attribute vectors: hand model + correspondence rather than translated code.",
         "technique": "Coq proof over a model translated from the source (translator tie) + extracted-model correspondence",
     },
+    "C06": {
+        "text": "A strict specification reader (Spec.v, transcribed from docs/archive_format.rst) defines what every valid header means "
+                "(spec_plans); py7zr's parser and assignment (_real_get_contents, worker ids, kind decision) are modelled in Header.v/"
+                "Assign.v; theorems relate the two for every number of folders, sub-streams and entries (assign_conforms, with "
+                "refutations for the layouts py7zr still misreads). Correspondence: model vs implementation on headers produced by an "
+                "independent reference writer over the layout space; exploration: py7zr reads each generated archive, compared with the "
+                "logical archive; 53 third-party fixtures cross-check the specification reader.",
+        "note": "Trusted: Coq kernel; Spec.v as transcription of the format; the reference writer/reader glue (tools/ref) and codec "
+                "libraries; Header.v/Assign.v tied by correspondence (not by translation). Partial: byte-level agreement of py7zr's "
+                "permissive parser with the strict one is shown by correspondence, the theorem is at the level of the header graph.",
+        "technique": "Coq proof of refinement (impl assignment vs spec assignment) + extracted-model correspondence + reference writer",
+    },
+    "C07": {
+        "text": "py7zr's header writer is modelled (Header.v write_header, byte-for-byte correspondence with the implementation on raw "
+                "headers); the strict specification reader accepts its output and recovers the intended members (theorem for wf headers; "
+                "concrete instances by computation); every archive written through the public API over chains x header modes x sessions "
+                "is parsed by the extracted Spec.v, decoded with independent codec calls and an independent 7zAES key derivation, and "
+                "checked for tiling of the data area, counts, sizes and CRCs.",
+        "note": "Trusted: Coq kernel; Spec.v; tools/ref/refreader.py; codec libraries. The general writer_conforms theorem depends on "
+                "HeaderProofs.v/SpecProofs.v; until they land the obligations are the computed instances and the section round trips.",
+        "technique": "Coq proof (writer output accepted by the specification reader) + independent strict reader",
+    },
+    "C08": {
+        "text": "Append = parse (Header.v parser), extend the graph, re-serialise (Header.v writer): header_roundtrip states exactly what "
+                "re-serialisation preserves (norm); histories w a{1..3} with bases written by py7zr, by the reference writer (C06 layouts) "
+                "and third-party fixtures are replayed on the implementation and read back after every session by py7zr and by the strict "
+                "reference reader (names, kinds, bytes, mtime, attributes of earlier members).",
+        "note": "Trusted: Coq kernel; Header.v tied by correspondence; Spec.v; tools/ref. Partial: the position arithmetic of "
+                "_prepare_append is covered by exploration (tiling check of the reference reader), not by a theorem yet.",
+        "technique": "Coq proof of header round trip (what append preserves) + history exploration with an independent reader",
+    },
 }
 
 _PENDING = "check not built yet in this session (planned, see DESIGN.md section 5); not a statement that proof is inapplicable"
 NOT_APPLICABLE = {p: _PENDING for p in
-                  ["C01", "C02", "C03", "C04", "C05", "C06", "C07", "C08", "C09", "C10", "C11", "C12", "C13", "C14", "C15",
+                  ["C01", "C02", "C03", "C04", "C05", "C09", "C10", "C11", "C12", "C13", "C14", "C15",
                    "C16", "C18", "C19", "C20"]}
